@@ -82,17 +82,87 @@ pub fn verif_str_is(a: &str, b: &str) -> (r: bool) ensures r == (a@ == b@) { uni
 pub fn gen_primitive(ast: &AST, ty: &str, env: &Environment, constr: &mut ConstrBuilder) -> (r: Constrained)
     ensures mono(*old(constr), *final(constr)), r is Err ==> r->Err_0@.len() >= 1,
 { unimplemented!() }
-#[verifier::external_body]
-pub fn constrain_args(args: &[AST], env: &Environment, ctx: &Context, constr: &mut ConstrBuilder) -> (r: Constrained)
-    ensures mono(*old(constr), *final(constr)), r is Err ==> r->Err_0@.len() >= 1,
-        // A-EXT: defining the parameters does not touch the caught set (the result is threaded through `generate`)
-        r matches Ok(a) ==> a.raises_caught == env.raises_caught,
-{ unimplemented!() }
-/// definitions (unit GENDEF)
+/// definitions (unit GENDEF proves what id_from_var RECORDS; here: what it does to the environment is assumed — it only
+/// defines names: flags, caught set, return type, class and constructor bookkeeping are the caller's)
+pub open spec fn defines_only(env: Environment, e: Environment) -> bool {
+    e == (Environment { vars: e.vars, var_mapping: e.var_mapping, ..env })
+}
+/// ghost DEFINITION LOG: (pattern, declared type, mutable flag, environment it extends) of every id_from_var call so far
+pub uninterp spec fn defs(b: ConstrBuilder) -> Set<(AST, Option<Name>, bool, Environment, Environment)>;
+pub open spec fn defined(b: ConstrBuilder, var: AST, ty: Option<Name>, mutable: bool, e_in: Environment, e_out: Environment) -> bool {
+    defs(b).contains((var, ty, mutable, e_in, e_out))
+}
 #[verifier::external_body]
 pub fn id_from_var(var: &AST, ty: &Option<Name>, expr: &Option<Box<AST>>, mutable: bool, ctx: &Context, constr: &mut ConstrBuilder, env: &Environment) -> (r: Constrained)
     ensures mono(*old(constr), *final(constr)), r is Err ==> r->Err_0@.len() >= 1,
+        r matches Ok(e) ==> defines_only(*env, e) && defined(*final(constr), *var, *ty, mutable, *env, e),
+        forall|a: AST, t: Option<Name>, m: bool, i: Environment, o: Environment| defined(*old(constr), a, t, m, i, o) ==> defined(*final(constr), a, t, m, i, o),
 { unimplemented!() }
+
+// ---- constrain_args: function parameters as definitions (C07: the `mutable` flag of a parameter is what is recorded;
+// ---- C09: parameters are defined in order, each in the environment its predecessor returned) -----------------------------------
+pub uninterp spec fn self_node() -> Node;
+pub uninterp spec fn name_of_class(c: StringName) -> Name;
+/// OUTLINED `var.node == Node::new_self()`
+#[verifier::external_body]
+pub fn verif_is_self(n: &Node) -> (r: bool) ensures r == (*n == self_node()) { unimplemented!() }
+/// OUTLINED `opt.ok_or_else(|| TypeErr::new(pos, ".."))` (+ the conversion `?` applies to the single error)
+#[verifier::external_body]
+pub fn verif_ok_or_err<T>(o: Option<T>, pos: Position) -> (r: TypeResult<T>)
+    ensures o matches Some(t) ==> r == Ok::<T, Vec<TypeErr>>(t), o is None ==> r is Err && r->Err_0@.len() >= 1,
+{ unimplemented!() }
+impl From<&StringName> for Name {
+    #[verifier::external_body]
+    fn from(c: &StringName) -> (r: Name) ensures r == name_of_class(*c) { unimplemented!() }
+}
+/// parameter i is defined with ITS OWN mutability flag and declared type, in the environment parameter i-1 returned
+pub open spec fn arg_defined(arg: AST, e_in: Environment, e_out: Environment, cls: Option<StringName>, b: ConstrBuilder) -> bool {
+    match arg.node {
+        Node::FunArg { vararg, mutable, var, ty, default } => exists|t: Option<Name>| #[trigger] defined(b, *var, t, mutable, e_in, e_out)
+            && (ty matches Some(tt) ==> t == Some(name_of(*tt)))
+            && (ty is None ==> (if var.node == self_node() { cls matches Some(c) && t == Some(name_of_class(c)) } else { t is None })),
+        _ => false,
+    }
+}
+pub open spec fn args_chain(args: Seq<AST>, envs: Seq<Environment>, env0: Environment, cls: Option<StringName>, b: ConstrBuilder) -> bool {
+    &&& envs.len() == args.len() + 1
+    &&& envs[0] == env0
+    &&& forall|i: int| 0 <= i < args.len() ==> arg_defined(#[trigger] args[i], envs[i], envs[i + 1], cls, b)
+}
+
+//@@ FN src/check/constrain/generate/definition.rs | free | constrain_args | props=C07,C09,C03
+//@@ REPLACE
+//@@< var.node == Node::new_self()
+//@@> verif_is_self(&var.node)
+//@@ REPLACE
+//@@< env.class.clone().ok_or_else($$)
+//@@> verif_ok_or_err(env.class.clone(), var.pos)
+//@@ HINT after
+//@@< let mut $ewa = env.is_expr(true);
+//@@> let ghost mut envs: Seq<Environment> = seq![$ewa];
+//@@ ITERNAME
+//@@< for arg in args
+//@@> for arg in ait: args
+//@@ LOOPINV
+//@@< for arg in args
+//@@> invariant mono(*old(constr), *constr), envs.len() == ait.index@ + 1, envs[0] == (Environment { is_expr: true, ..*env }), $ewa == envs.last(), defines_only(Environment { is_expr: true, ..*env }, $ewa), forall|a: AST, t: Option<Name>, m: bool, i: Environment, o: Environment| defined(*old(constr), a, t, m, i, o) ==> defined(*constr, a, t, m, i, o),
+//@@ INVCLAIM
+//@@< for arg in args
+//@@> forall|i: int| 0 <= i < ait.index@ ==> arg_defined(#[trigger] args@[i], envs[i], envs[i + 1], env.class, *constr), //# loop_every_parameter_so_far_is_defined_with_its_own_flag_and_type [C07,C09]
+//@@ HINT after count=2
+//@@< $ewa = id_from_var($$)?
+//@@> ; proof { envs = envs.push($ewa); }
+//@@ CLAIM before
+//@@< Ok($ewa.is_expr($$))
+//@@> assert(args_chain(args@, envs, Environment { is_expr: true, ..*env }, env.class, *constr));  //# the_recorded_environments_form_the_parameter_chain [C07,C09]
+    ensures
+        mono(*old(constr), *final(constr)),                                      //# visits_are_never_forgotten [C09]
+        r matches Ok(e) ==> exists|envs: Seq<Environment>| args_chain(args@, envs, Environment { is_expr: true, ..*env }, env.class, *final(constr))
+            && e == (Environment { is_expr: env.is_expr, ..envs.last() }),       //# parameters_are_defined_in_order_each_with_its_own_flag [C07,C09]
+        // defining parameters defines names only (what gen_def relies on for the caught set)
+        r matches Ok(e) ==> defines_only(*env, e),                               //# parameters_only_define_names [C08,C09]
+        r is Err ==> r->Err_0@.len() >= 1,                                       //# rejection_carries_a_diagnostic [-]
+//@@ END
 
 pub const BOOL: &'static str = "Bool";
 pub open spec fn is_constant_name(lit: Seq<char>) -> bool { lit == "None"@ || lit == "True"@ || lit == "False"@ }
